@@ -407,6 +407,8 @@ def statement_menu():
         L(("mod", "₌", (E("+"), E("N")))), L(("mod", "₌", (E("N"), E("+")))), L(("mod", "₍", (E("+"), E("N")))), L(("mod", "₍", (E("d"), E("-")))),
         L(("mod", "₌", (E("!"), E("+")))), L(("mod", "~", (E("!"),))), L(("mod", "&", (E("!"),))), L(("mod", "v", (E("+"),))),
         L(("lam", None, (("if", ((("break",),),)), N(9))), E("†")), L(N(2), ("map", (("if", ((("break",),),)), N(9)))),
+        L(("list", ((E("+"),), (E(":"),)))), L(("list", ((E("_"),), (E(":"),)))), L(("list", ((N(2), N(3)), (E(":"),), (E("$"), E("-"))))),
+        L(("list", ((E("_"), E("_")), (E("n"),), (E("!"),)))), L(("lam", None, (N(1), E("+"))), E(",")), L(("lam", 2, (E("+"),)), E("…"), E("_")),
         L(("fndef", "g", (), (N(1), ("break",), N(2))), ("fncall", "g")), L(("fndef", "g", (1,), (E(":"), ("if", ((("break",),),)), N(5))), ("fncall", "g")),
         L(N(2), ("map", (("break",), E("!")))), L(N(3), ("filter", (N(2), E("<"), ("break",), N(0)))), L(("while", (N(0),), (N(1),)), E("n")),
         L(N(2), ("for", None, (("while", (N(0),), (N(1),)), E("n"), E(",")))),
@@ -601,7 +603,12 @@ def run(tier, seed):
                     (N(k), ("lam", None, b), E("M")), (N(k), ("lam", None, b), E("F")), (("lam", None, b), N(k), E("M")),
                     (("lam", None, b), N(k), E("F")), (N(k), ("mod", "~", (("lam", None, b),)))]
         rng += [(N(k), ("mod", "v", (E("d"),))), (N(k), ("mod", "v", (E("›"),))), (N(k), ("mod", "~", (E("d"),))), (N(k), E("ɾ")), (N(k), N(2), ("mod", "v", (E("+"),)))]
-    pf = list(pf) + rng
+    # function values reaching a printing element or the implicit output (printing a function calls it on the stack)
+    fns = [("lam", None, (N(1), E("+"))), ("lam", None, (E("d"),)), ("lam", 2, (E("+"),)), ("lam", 0, (N(7),)), ("mod", "⁽", (E("d"),))]
+    fnp = []
+    for f in fns:
+        fnp += [(f,), (N(3), f), (N(3), f, E(",")), (N(3), N(4), f, E("…")), (N(3), f, E("₴")), (N(2), ("for", None, (N(3), f, E(","))))]
+    pf = list(pf) + rng + fnp
     explore.pmap(_flag_shard, [(c, ["none", "2,5"]) for c in explore.chunks(pf, 128)], rep, seed)
     b = rep.sections.get("bfs", {})
     rep.extra.update({
